@@ -42,6 +42,7 @@ inductive Err
 inductive Dec
   | ok (p : Bytes)
   | fail (extra : Nat)
+  deriving DecidableEq
 
 def maxPlaintext : Nat := 16384
 def maxCiphertext : Nat := 16384 + 2048
@@ -122,6 +123,29 @@ def serve (dec : Nat → UInt8 → Bytes → Dec) (vers : UInt8 × UInt8) : Nat 
 /-- run a whole incoming byte stream `w` (followed by EOF) -/
 def runStream (dec : Nat → UInt8 → Bytes → Dec) (vers : UInt8 × UInt8) (w : Bytes) : St :=
   serve dec vers (w.length + 1) { raw := w }
+
+/-- One more `Conn.Read` on a connection state (what the harness does four more times after the first error):
+      for c.input == nil && c.in.err == nil { readRecord }        -- not entered once c.in.err is set
+      if err := c.in.err; err != nil { return 0, err }            -- BEFORE looking at c.input
+      n, err = c.input.Read(b); …
+    Returns the new state, the bytes handed to the application and the error.  (`noprogress` is not a
+    `c.in.err` in Go; the harness does not read on after it.) -/
+def readAgain (dec : Nat → UInt8 → Bytes → Dec) (vers : UInt8 × UInt8) (st : St) : St × Bytes × Option Err :=
+  let st1 := if st.input.isNone ∧ st.err.isNone then readRecord dec vers (st.raw.length + 1) st else st
+  match st1.err with
+  | some e => (st1, [], some e)
+  | none =>
+    match st1.input with
+    | none => (st1, [], none)
+    | some p => ({ st1 with input := none, out := st1.out ++ p }, p, none)
+
+/-- `k` further Reads: the bytes they deliver and the errors they return -/
+def readMore (dec : Nat → UInt8 → Bytes → Dec) (vers : UInt8 × UInt8) : Nat → St → Bytes × List (Option Err)
+  | 0, _ => ([], [])
+  | k + 1, st =>
+    let r := readAgain dec vers st
+    let m := readMore dec vers k r.1
+    (r.2.1 ++ m.1, r.2.2 :: m.2)
 
 /-! ### the honest sender -/
 
